@@ -90,3 +90,11 @@ func RandPerm(n int) []int {
 	}
 	return p
 }
+
+// Stamp returns the next value of a global event sequence (history invoke/return stamps).
+func (w *World) Stamp() int64 {
+	w.mu.Lock()
+	defer w.mu.Unlock()
+	w.stamp++
+	return w.stamp
+}
